@@ -230,6 +230,32 @@ def c_names(ctx, case):
     exp = make_hierarchy([(clsname, "dec", "map_explicit_one")])[0]
     if exp.mapper_method != "map_explicit_one":
         ctx.fail("C04.names", case, "explicit-name-overridden", f"{clsname}: {exp.mapper_method!r}")
+    # "unless it sets one itself" -- also when the name it sets IS the one its parent uses
+    # ("treat me like my parent"), under a user base class and under a stock node class
+    same = make_hierarchy([("BaseThing", "dec", "map_custom_base"),
+                           (clsname, "dec", "map_custom_base")])[1]
+
+    @p.expr_dataclass()
+    class LikeVariable(p.Variable):
+        mapper_method = "map_variable"
+    LikeVariable.__name__ = LikeVariable.__qualname__ = clsname
+
+    class Both(Mapper):
+        def map_variable(self, expr, *a, **k):
+            return "parent-name"
+
+        def map_custom_base(self, expr, *a, **k):
+            return "parent-name"
+    setattr(Both, want, lambda self, expr, *a, **k: "derived-name")
+    ctx.count("explicit_same_as_parent")
+    for cls_, inst in ((same, same(p.Variable("u"), p.Variable("v"))), (LikeVariable, LikeVariable("n"))):
+        parent = "map_custom_base" if cls_ is same else "map_variable"
+        routed = Both()(inst)
+        if cls_.mapper_method != parent or routed != "parent-name":
+            ctx.fail("C04.names", case, "explicit-name-equal-to-inherited-ignored",
+                     f"a decorated class that itself sets mapper_method = {parent!r} (the name "
+                     f"its parent uses) has mapper_method {cls_.mapper_method!r} and is dispatched "
+                     f"to the {routed} handler")
 
 
 class Weird:
@@ -424,6 +450,27 @@ class LeafRewriter(IdentityMapper):
         return expr
 
 
+def other_kind(c):
+    """an EQUAL number of another kind (2 -> 2.0, 2.0 -> 2, True -> 1, np.float32(.5) -> .5)"""
+    import math
+    if isinstance(c, (bool, np.bool_)):
+        return int(c)
+    if isinstance(c, (int, np.integer)):
+        return float(c) if abs(int(c)) < 2**53 else c
+    if isinstance(c, (float, np.floating)):
+        if math.isfinite(c) and float(c).is_integer() and not (c == 0 and math.copysign(1, c) < 0):
+            return int(c)
+        return float(c) if type(c) is not float else np.float64(c)
+    return c
+
+
+class KindChanger(IdentityMapper):
+    """a derived identity traversal that changes the KIND of every constant, not its value"""
+
+    def map_constant(self, expr, *a, **k):
+        return other_kind(expr)
+
+
 def ref_rewrite(e, counter, target):
     """independent rebuild with the target-th Variable occurrence (in *a* pre-order) replaced;
     returns (new, changed)"""
@@ -571,6 +618,31 @@ def c_identity(ctx, case):
                 and out is not e:
             ctx.fail("C04.identity", case, "identity:not-same-object",
                      f"nothing changed below {G.src(e)} but IdentityMapper returned a new object")
+    # a derived traversal that turns every constant into an EQUAL constant of another kind: the
+    # result holds the new constants everywhere ("equal, so nothing changed" is not "unchanged")
+    if isinstance(e, p.Expression) and not has_zero_cse(e) and not has_rebuilt_container(e) \
+            and all(normal.is_expr_dataclass(type(o)) for o in occurrences(e)
+                    if isinstance(o, p.Expression)) \
+            and not any(isinstance(o, (p.NaN, p.Slice)) for o in occurrences(e)):
+        try:
+            want_k = G.deep_rebuild(e, leaf=lambda v: other_kind(v)
+                                    if isinstance(v, (int, float, np.number, np.bool_)) else v)
+            out_k = KindChanger()(e, *args, **kw)
+        except REFUSAL:
+            want_k = None
+        except RecursionError:
+            raise
+        except Exception as ex:  # noqa: BLE001
+            ctx.fail("C04.identity", case, f"kind-rewrite:raised:{type(ex).__name__}", str(ex))
+            want_k = None
+        if want_k is not None:
+            ctx.case(None)
+            ctx.count("kind_rewrites")
+            if not normal.typed_eq(out_k, want_k):
+                ctx.fail("C04.identity", case, "kind-rewrite:dropped",
+                         f"an IdentityMapper subclass mapping every constant to an equal constant "
+                         f"of another kind, over {G.src(e)}: got {G.src(out_k)}, expected "
+                         f"{G.src(want_k)}")
     # rewriting identity mapper: replace the i-th leaf; untouched siblings identical
     nvars = sum(1 for o in occurrences(e) if isinstance(o, p.Variable))
     if nvars and not has_zero_cse(e):
@@ -1055,6 +1127,8 @@ def workload(ctx):
         for k, v in tr.handlers().items():
             ctx.count("handler:" + k, v)
     ctx.floor("wide_nodes", 250)
+    ctx.floor("explicit_same_as_parent", 10)
+    ctx.floor("kind_rewrites", 800)
     ctx.floor("registry_dispatches", 12)
     ctx.floor("raising_handlers", 500)
     ctx.floor("dispatches", 2000)
